@@ -625,6 +625,29 @@ func TestC10(t *testing.T) {
 			c.Count("pair.nothing_to_factor")
 			return
 		}
+		// a node shared between two places can end up inline in one document while a nested
+		// factoring step, run for its other occurrence, has put a reference local to another
+		// document inside it: such a case is my construction error, not the tool's
+		dangling := false
+		for _, rf := range rb.files {
+			have := map[string]bool{}
+			for _, d := range rf.Defs {
+				have[d.Name] = true
+			}
+			chk := func(x *model.Node) {
+				if x.Kind == model.KRef && strings.HasPrefix(x.Ref, "#/$defs/") && !have[strings.TrimPrefix(x.Ref, "#/$defs/")] {
+					dangling = true
+				}
+			}
+			model.Walk(rf.Root, chk)
+			for _, d := range rf.Defs {
+				model.Walk(d.Node, chk)
+			}
+		}
+		if dangling {
+			c.Count("pair.discarded_dangling_local_ref")
+			return
+		}
 		rootType := progRoot
 		if rb.resExt {
 			rootType = "Prog"
